@@ -47,6 +47,10 @@ Inductive op :=
 | SFromJson (s s' : nat)
 | SElemChangeArg (s : nat) (pos : Z) (c : chan) (n : str) (a : argref) (v : val) (ev : bool)
 | SElemChangeDur (s : nat) (pos : Z) (c : chan) (n : str) (d : val) (ev : bool)
+(* the other Element mutators through the live handle Sequence.element(pos) *)
+| SElemAddBp (s : nat) (pos : Z) (c : chan) (r : nat)
+| SElemAddArray (s : nat) (pos : Z) (c : chan) (w : rle) (SR : val) (ms : list (str * rle))
+| SElemAddFlags (s : nat) (pos : Z) (c : chan) (fl : list val)
 (* tools *)
 | TVarying (e : nat) (cs : list chan) (ns : list str) (ars : list argref) (its : list (list val)) (s : nat)
 | TRepeat (s : nat) (ps : list Z) (cs : list chan) (ns : list str) (ars : list argref) (its : list (list val)) (s' : nat)
@@ -175,6 +179,13 @@ Definition exec (st : store) (o : op) : store * pv :=
       end
   | SElemChangeArg s pos c n a v ev => onS st s (fun q => on_seq_elem q pos (fun e => el_change_arg e c n a v ev))
   | SElemChangeDur s pos c n d ev => onS st s (fun q => on_seq_elem q pos (fun e => el_change_dur e c n d ev))
+  | SElemAddBp s pos c r =>
+      match getB st r with
+      | Ok b => onS st s (fun q => on_seq_elem q pos (fun e => el_add_bp e c b))
+      | Err er => (st, PErr er)
+      end
+  | SElemAddArray s pos c w SR ms => onS st s (fun q => on_seq_elem q pos (fun e => el_add_array e c w SR ms))
+  | SElemAddFlags s pos c fl => onS st s (fun q => on_seq_elem q pos (fun e => el_add_flags e c fl))
   | TVarying e cs ns ars its s =>
       match getE st e with
       | Ok x => match make_varying x cs ns ars its with Ok q => (putS st s q, PNone) | Err er => (st, PErr er) end
